@@ -194,6 +194,14 @@ def run_stream(binary, stream, seed, n, replay=None):
     return run
 
 
+def div_summary(impl, model):
+    ci, cm = split_res(impl)[0], split_res(model)[0]
+    items = monitors.differing_items(impl, model)
+    if items:
+        return ": " + "; ".join("%s %s only: %s" % (k, side, it[:120]) for k, it, side in items[:4])
+    return ": impl '%s' vs model '%s'" % (ci[:160], cm[:160])
+
+
 def still_fails(binary, stream, ops, pred):
     """re-execute `ops` on the real code and the model; pred(run) says whether the failure persists"""
     path = os.path.join(BUILD, "shrink_%d_%s.trace" % (os.getpid(), stream))
@@ -384,8 +392,9 @@ def check_property(pid, tier, seed):
         for f in sorted(os.listdir(corpus_dir)):
             if f.endswith(".trace"):
                 h = read_header(os.path.join(corpus_dir, f))
-                if h.get("regen") == "1":   # application-layer histories are regenerated from (stream, seed, n)
-                    jobs.append((h.get("binary", "kdrive"), h["stream"], int(h.get("seed", "1")), int(h.get("n", "2000")), None))
+                if h.get("regen") == "1":   # application-layer histories are regenerated from (stream, seed(s), n)
+                    for sd in (h.get("seeds") or h.get("seed", "1")).split(","):
+                        jobs.append((h.get("binary", "kdrive"), h["stream"], int(sd), int(h.get("n", "2000")), None))
                 else:
                     jobs.append((h.get("binary", "kdrive"), h.get("stream", P["streams"][0]["name"]), 0, 0, os.path.join(corpus_dir, f)))
     for st in P["streams"]:
@@ -431,7 +440,16 @@ def check_property(pid, tier, seed):
             idx, detail = mon_hits[0]
             kind = "monitor"
         else:
-            idx, detail = hard[0], "model and implementation differ"
+            # prefer the first divergence on which the property itself fails (the model's verdict there is pinned by a
+            # theorem, see monitors.DIV_RULES); otherwise the first divergence
+            first = hard[0]
+            for i in hard[:400]:
+                if monitors.divergence_is_violation(pid, {"op": r.ops[i], "impl": r.impl[i], "model": r.model[i]}):
+                    first = i
+                    break
+            idx, detail = first, "model and implementation differ" + div_summary(r.impl[first], r.model[first])
+            if first != hard[0]:
+                detail += " (first difference of the run: op #%d%s)" % (hard[0], div_summary(r.impl[hard[0]], r.model[hard[0]])[:200])
             kind = "divergence"
         witness = {"kind": kind, "stream": stream, "op": r.ops[idx], "impl": r.impl[idx], "model": r.model[idx], "detail": detail}
         kf = match_known(pid, witness)
@@ -548,6 +566,8 @@ def finish(pid, tier, seed, t0, P, axioms, discharged, violations, known_lines, 
     for n in notes:
         log("note:", n)
     if violations:
+        seen = set()
+        violations = [v for v in violations if not (v in seen or seen.add(v))]
         for path, suffix in violations:
             print("VIOLATION property=%s replay=%s%s" % (pid, path, suffix))
         return 1
